@@ -28,6 +28,7 @@ func init() {
 		"vfOr":      func(p *path, _ *frame, a []value) value { return p.tc.Or(a[0].(*Term), a[1].(*Term)) },
 		"vfImplies": func(p *path, _ *frame, a []value) value { return p.tc.Implies(a[0].(*Term), a[1].(*Term)) },
 		"vfNot":     func(p *path, _ *frame, a []value) value { return p.tc.Not(a[0].(*Term)) },
+		"vfFork":    func(p *path, _ *frame, a []value) value { return p.tc.Bool(p.branch(a[0].(*Term))) },
 		"vfStop":    func(p *path, _ *frame, a []value) value { p.abort(abortDone, ""); return nil },
 		"vfEngine":  func(p *path, _ *frame, a []value) value { return p.tc.tt },
 		"vfPermuteMaps": func(p *path, _ *frame, a []value) value {
@@ -501,5 +502,41 @@ func (p *path) render(v value) string {
 func vfObserve(p *path, _ *frame, args []value) value {
 	label := p.argName(args[0])
 	p.observes = append(p.observes, obsRec{label, p.render(args[1])})
+	p.observesRaw = append(p.observesRaw, rawObs{label, args[1]})
 	return nil
+}
+
+// renderUnder renders a value like render, with every symbolic scalar evaluated under model m.
+func (p *path) renderUnder(v value, m map[string]uint64) string {
+	switch v := v.(type) {
+	case iface:
+		if v.t == nil {
+			return "<nil>"
+		}
+		return p.renderUnder(v.v, m)
+	case Str:
+		bs := make([]byte, len(v.b))
+		for i, b := range v.b {
+			bs[i] = byte(b.Eval(m))
+		}
+		return fmt.Sprintf("%q", string(bs))
+	case *Term:
+		x := v.Eval(m)
+		if v.sort == 0 {
+			return fmt.Sprint(x == 1)
+		}
+		return fmt.Sprint(sx(x, v.sort))
+	case []value:
+		parts := make([]string, len(v))
+		for i, x := range v {
+			parts[i] = p.renderUnder(x, m)
+		}
+		return "[" + strings.Join(parts, " ") + "]"
+	case *errorV:
+		if v == nil {
+			return "<nil>"
+		}
+		return "error:" + p.renderUnder(v.msg, m)
+	}
+	return fmt.Sprintf("<%T>", v)
 }
